@@ -41,6 +41,9 @@ def configs(ctx):
                         methods.append(gen.simple_method("on_other", "reply", [
                             {"name": "res", "ty": gen.P("SubMsgResult")}, {"name": "p", "ty": gen.P("Binary"), "payload_raw": True}]))
                 ct = {"name": "Ct", "methods": methods, "overrides": ovl, "replies": replies}
+                # several kinds overridden by one and the same function (sudo, migrate and reply overrides share a signature)
+                if n % 5 == 2 and len(set(ovl)) >= 2:
+                    ct["override_targets"] = {k: "crate::shared_entry(Empty)" for k in ovl}
                 if generic:
                     ct["generics"] = [{"name": "T", "text": "T"}, {"name": "U", "text": "U: Clone"}]
                     ct["ep_generics"] = ["u32", "Vec<String>"]
@@ -143,7 +146,7 @@ def run(ctx):
     ctx.cov["exhaustive"] = True
     ctx.cov["traces_validated_against_impl"] += len(cfgs)
     ctx.cov["rule"] = ("all 2^6 subsets of overridden kinds x migrate handler x reply handler x replies feature x generic contract (1024 programs, "
-                       "override order varied, some repeated); distinct = (override set, required entry point set)")
+                       "override order varied, some repeated, in a fifth of the programs with several overrides all of them name one shared function); distinct = (override set, required entry point set)")
     # a failed obligation that the concrete violations explain is not reported twice
     if ctx.violations:
         for o in ctx.obligation_failures:
